@@ -379,6 +379,8 @@ def main():
     batches = batches + enum_batches
 
     # determinism audit in miniature: re-run a sample of seeds in fresh single-run processes
+    deaths_in_batches = _deaths[0]
+    _deaths[0] = -10**9  # the cap on worker deaths is for the batches only
     audit_total = audit_bad = 0
     audit_bad_seeds = []
     for b in batches_seeded:
@@ -388,6 +390,8 @@ def main():
             futs = {s: pool.submit(run_chunk, b.exe, b.mode, b.focus, s, s + 1, False) for s in seeds}
             for s, f in futs.items():
                 r = f.result()
+                if s not in r["hashes"]:
+                    continue  # the run died in the fresh process too: it is a crash candidate, not an audit result
                 audit_total += 1
                 if r["hashes"].get(s) != b.hashes[s]:
                     audit_bad += 1
@@ -547,6 +551,7 @@ def main():
             "determinism_audit": {"replayed_in_fresh_process": audit_total, "hash_mismatches": audit_bad,
                                   "deterministic_dependence_on_earlier_runs": len(cross_run)},
             "candidates_triaged": n_triaged,
+            "worker_deaths_in_batches": deaths_in_batches,
             "non_gating_probe_results": probe_counts,
             "violations_of_other_properties_seen": other_props,
             "known_findings_observed": known_hits,
